@@ -1,7 +1,9 @@
 /* C04: exhaustive permutation driver for the internal heap sort. */
 static int verif_int_cmp(const void *a, const void *b, void *data) {
     long *cnt = (long *)data;
-    int x = *(const int *)a, y = *(const int *)b;
+    int x, y;
+    memcpy(&x, a, sizeof(int));
+    memcpy(&y, b, sizeof(int));
     if (cnt) (*cnt)++;
     return (x > y) - (x < y);
 }
